@@ -1,5 +1,6 @@
 import DS.Gen.SrcSymOp
 import DS.Lemmas.SrcSymOp
+import DS.Lemmas.SrcSymOp4
 /-!
 # Source tie for the CIF symmetry-operator reader (serves C17 and C07; task T18)
 
@@ -21,16 +22,27 @@ What is proved here, for ALL texts (no bound on length):
 * the data the transliterated control flow depends on (`…_data` theorems, `rfl`) and the statements themselves with every
   constant (`…_shape` theorems, `rfl`); `split_is_splitComma`, `normalize_is_lower_removeAll`: the outer text handling of the
   model is that of the source.
-* `getSymOp_samples`: the transliteration and the model agree — same exception kind, or identical matrix and identical
-  fractions numerator by numerator — on a fixed list of operator texts covering every branch (a kernel-checked test, not the
-  general theorem).
-
-NOT proved (time): the general equality `getSymOp_eq_statement` (kept as a `def … : Prop`).  The missing part is the
-induction that relates "split at the variable terms, then read each constant piece" to the model's one left-to-right pass
-`scanRow`; its ingredients are the three characterisations above, `Frac.add_assoc`/`zero_add` (the two summation orders give
-the same representation) and a look-ahead lemma for `scanLit` across a piece boundary.  The correspondence stream of C17
-compares both sides with the real `getSymOp` on every run; a brute-force comparison of the two Lean functions on all 111 111
-rows of length ≤ 5 over `xY+-10./e␣` found no difference.
+* **`getSymOp_eq : getSymOp_eq_statement`** — the general equality, for every ASCII text: `getSymOp s = lift (parseSymOp s)`.
+  The transliteration of the current `getSymOp` and the model `parseSymOp` (the function the theorems of C17/C07 speak
+  about) end in the same exception kind (`StructureFormatError` when a component is malformed, `IndexError` when there are
+  fewer than three, in the same priority: components in order) — never `KeyError`, `ValueError`, `ZeroDivisionError`, never
+  the iteration bound `fuel`, never an operation `outside` the modelled subset — or in the same matrix and the same
+  fractions, representation included.  Proof (helper modules `DS/Lemmas/SrcSymOp2` … `SrcSymOp5`):
+  - `DS.SrcSymOp3.symop_constant_eq`: `_symop_constant(piece)` is the model's number scanner without axis letters
+    (`pieceToks`): a sum of signed quotient literals, every one after the first with an explicit sign, anything else
+    `StructureFormatError`; includes fuel sufficiency of the `while` loop, `partition('/')`, `float`, the zero test;
+  - `DS.SymText.scanLit_append` / `scanQuot_append`: look-ahead of the literal scanner across a piece boundary;
+  - `DS.SrcSymOp4.decomp`: the one-pass scanner on `piece ++ tail` = piece scanner on `piece`, then scanner on `tail`,
+    when no variable term starts inside `piece` and `tail` is empty or begins with one;
+  - `DS.SrcSymOp4.searchFrom_spec`, `scan_split_none/some`: `re.split` at `[+-]?[xyz]` cuts exactly there;
+  - `DS.SrcSymOp4.rowR`, `rowT`, `getSymOp_row_eq`: the loop over the odd pieces never fails and adds the model's row
+    vector (`symvec` lookups never miss), the loop over the even pieces fails exactly when the model rejects the row and
+    otherwise adds the model's constant (the two summation orders agree by `Frac.add_assoc`/`zero_add`);
+  - `DS.SrcSymOp5.scanRow_lower`, `splitComma_lower`: the model lower-cases the whole text first, the source only the
+    variable terms — the same on ASCII;
+  - `getSymOp_three`, `getSymOp_rows`: the three passes, `t -= floor(t)`, the constructor.
+* `getSymOp_samples`: the same agreement checked by kernel evaluation on a fixed list of operator texts covering every
+  branch (kept as a regression test of the definitions; it is a consequence of `getSymOp_eq`).
 
 ASCII: `DS.Rx` reads `\d` as `[0-9]` and `(?i)` through `Char.toLower/toUpper`; Python differs on non-ASCII text.  The
 hypothesis is explicit in `getSymOp_eq_statement` and in `axis_class_ascii`/`sign_class_ascii`.
@@ -225,5 +237,130 @@ theorem getSymOp_samples_check : sampleTexts.all (fun t => agree (getSymOp t.toL
 theorem getSymOp_samples : ∀ t ∈ sampleTexts, getSymOp t.toList = lift (parseSymOp t.toList) := by
   intro t ht
   exact (agree_iff _ _).mp (List.all_eq_true.mp getSymOp_samples_check t ht)
+
+/-! ## the general theorem: the transliteration of the current `getSymOp` IS the model, on every ASCII text -/
+
+open DS.SrcSymOp4 in
+/-- after the three passes of the loop: the rows and constants of the model -/
+theorem getSymOp_three (a b c : List Char) (rest : List (List Char)) (ha : Ascii a) (hb : Ascii b) (hc : Ascii c) :
+    [0, 1, 2].foldlM (getSymOp_row (a :: b :: c :: rest)) (zeros33, zeros3) =
+      match parseRow (lower a) with
+      | none => .error .structureFormatError
+      | some ta =>
+        match parseRow (lower b) with
+        | none => .error .structureFormatError
+        | some tb =>
+          match parseRow (lower c) with
+          | none => .error .structureFormatError
+          | some tc => .ok ((rowVec ta, rowVec tb, rowVec tc), (rowConst ta, rowConst tb, rowConst tc)) := by
+  simp only [List.foldlM_cons, List.foldlM_nil]
+  rw [getSymOp_row_eq (i := 0) (by omega) _ _ a rfl ha]
+  cases parseRow (lower a) with
+  | none => rfl
+  | some ta =>
+    simp only [ok_bind]
+    rw [getSymOp_row_eq (i := 1) (by omega) _ _ b rfl hb]
+    cases parseRow (lower b) with
+    | none => rfl
+    | some tb =>
+      simp only [ok_bind]
+      rw [getSymOp_row_eq (i := 2) (by omega) _ _ c rfl hc]
+      cases parseRow (lower c) with
+      | none => rfl
+      | some tc =>
+        simp [addRowP, addAtP, zeros33, zeros3, addVec_zero_left, Frac.zero_add]
+
+/-- `parseSymOp` after the text has been split into components -/
+def parseRows (L : List (List Char)) : Except Err SymOp :=
+  match L with
+  | [] => .error .index
+  | a :: rest =>
+    match parseRow a with
+    | none => .error .format
+    | some ta =>
+      match rest with
+      | [] => .error .index
+      | b :: rest2 =>
+        match parseRow b with
+        | none => .error .format
+        | some tb =>
+          match rest2 with
+          | [] => .error .index
+          | c :: _ =>
+            match parseRow c with
+            | none => .error .format
+            | some tc =>
+              .ok { r1 := rowVec ta, r2 := rowVec tb, r3 := rowVec tc,
+                    t1 := (rowConst ta).fract, t2 := (rowConst tb).fract, t3 := (rowConst tc).fract }
+
+theorem parseSymOp_rows (s : List Char) : parseSymOp s = parseRows (splitComma (normalize s)) := rfl
+
+open DS.SrcSymOp4 in
+/-- the loop over the components, the floor and the constructor, for any list of ASCII components -/
+theorem getSymOp_rows (L : List (List Char)) (hrows : ∀ e ∈ L, Ascii e) :
+    (do let st ← [0, 1, 2].foldlM (getSymOp_row L) (zeros33, zeros3)
+        pure (mkSymOp st.1 (subFloor st.2)) : Except Exn SymOp) = lift (parseRows (L.map lower)) := by
+  match L, hrows with
+  | [], _ =>
+    simp only [List.foldlM_cons, List.map_nil]
+    rw [getSymOp_row_index (i := 0) _ _ rfl]; rfl
+  | [a], hrows =>
+    have ha : Ascii a := hrows a (by simp)
+    simp only [List.foldlM_cons, List.map_cons, List.map_nil, parseRows]
+    rw [getSymOp_row_eq (i := 0) (by omega) _ _ a rfl ha]
+    cases parseRow (lower a) with
+    | none => rfl
+    | some ta =>
+      simp only [ok_bind]
+      rw [getSymOp_row_index (i := 1) _ _ rfl]; rfl
+  | [a, b], hrows =>
+    have ha : Ascii a := hrows a (by simp)
+    have hb : Ascii b := hrows b (by simp)
+    simp only [List.foldlM_cons, List.map_cons, List.map_nil, parseRows]
+    rw [getSymOp_row_eq (i := 0) (by omega) _ _ a rfl ha]
+    cases parseRow (lower a) with
+    | none => rfl
+    | some ta =>
+      simp only [ok_bind]
+      rw [getSymOp_row_eq (i := 1) (by omega) _ _ b rfl hb]
+      cases parseRow (lower b) with
+      | none => rfl
+      | some tb =>
+        simp only [ok_bind]
+        rw [getSymOp_row_index (i := 2) _ _ rfl]; rfl
+  | a :: b :: c :: rest, hrows =>
+    have ha : Ascii a := hrows a (by simp)
+    have hb : Ascii b := hrows b (by simp)
+    have hc : Ascii c := hrows c (by simp)
+    rw [getSymOp_three a b c rest ha hb hc]
+    simp only [List.map_cons, parseRows]
+    cases parseRow (lower a) with
+    | none => rfl
+    | some ta =>
+      cases parseRow (lower b) with
+      | none => rfl
+      | some tb =>
+        cases parseRow (lower c) with
+        | none => rfl
+        | some tc => rfl
+
+open DS.SrcSymOp4 in
+/-- **`getSymOp` is `parseSymOp`**: on every ASCII text the transliteration of the current source and the model end in
+the same exception (`StructureFormatError` / `IndexError`, never `KeyError`, `ValueError`, `ZeroDivisionError`, never
+the iteration bound, never an operation outside the modelled subset) or in the same matrix and the same fractions -/
+theorem getSymOp_eq : getSymOp_eq_statement := by
+  intro s hs
+  have ht : Ascii (removeAll ' ' s) := fun c hc => hs c (DS.SrcSymOp5.removeAll_mem _ _ c hc)
+  have hrows : ∀ e ∈ split ',' (removeAll ' ' s), Ascii e :=
+    fun e he c hc => ht c (DS.SrcSymOp5.split_mem ',' _ e he c hc)
+  rw [parseSymOp_rows, normalize_is_lower_removeAll, DS.SrcSymOp5.splitComma_lower _ ht, ← split_is_splitComma,
+    ← getSymOp_rows _ hrows]
+  rfl
+
+-- non-vacuity: the hypothesis holds for ordinary operator texts, and both outcomes occur
+example : (∀ c ∈ "-x+1/2, Y, z-.25".toList, c.toNat < 128) := by decide
+example : ∃ o, getSymOp "-x+1/2, Y, z-.25".toList = .ok o := ⟨_, rfl⟩
+example : getSymOp "x,y,1/0".toList = .error .structureFormatError := by
+  rw [getSymOp_eq _ (by decide)]; rfl
 
 end DS.Props.SrcSymOp
